@@ -87,6 +87,8 @@ def damaged_bytes(orig, fault):
         return bytes(((i * 37 + fault["byte"]) % 251 + (i % 5)) % 256 for i in range(max(64, min(len(orig), 400))))
     if mode == "junk_text":
         return b"hello world\nthis is not a verification file\n1 2 3\n"
+    if mode == "nc_nodims":
+        return b"__nc_nodims__"
     if mode == "flip":
         if not orig:
             return orig
@@ -119,7 +121,38 @@ class CliSim(object):
             self.violation = {"step": step, "kind": kind, "detail": detail}
 
     # ------------------------------------------------------------------ one command
-    def run_cmd(self, argv, plan=None):
+    def run_cmd_contained(self, argv):
+        """Run one command in a forked grandchild.  Used for commands on byte-damaged NetCDF files: the
+        netCDF/HDF5 C library may abort or segfault on such input (observed: one flipped bit in a NETCDF3
+        header -> SIGSEGV), which ends that command with a non-zero status but must not end the session."""
+        import pickle
+        r, w = os.pipe()
+        pid = os.fork()
+        if pid == 0:
+            code = 0
+            try:
+                os.close(r)
+                out = self.run_cmd(argv)
+                with os.fdopen(w, "wb") as f:
+                    pickle.dump(out, f)
+            except BaseException:
+                code = 3
+            finally:
+                os._exit(code)
+        os.close(w)
+        with os.fdopen(r, "rb") as f:
+            data = f.read()
+        _, status = os.waitpid(pid, 0)
+        self.stats["commands"] += 1
+        if data:
+            out = pickle.loads(data)
+            self.stats["cmd_" + ("ok" if out["ok"] else "exit" if out["status"].startswith("exit") else "exc")] += 1
+            return out
+        self.stats["cmd_crash"] += 1
+        self.stats["probe:contained_crashes"] += 1
+        return {"status": "crash(wait_status=%d)" % status, "ok": False, "stdout": "", "file": None, "fired": []}
+
+    def run_cmd(self, argv, plan=None, hook=None):
         import verif.driver
         import matplotlib.pyplot as mpl
         for f in ("out.txt", "out.png"):
@@ -132,6 +165,7 @@ class CliSim(object):
                     self.ff.arm_open_error(f["file"], f["nth"], f["errno"], seam=f.get("seam", "open"))
                 elif f["type"] == "read_error":
                     self.ff.arm_read_error(f["file"], f["after"])
+        self.ff.swap_hook = hook
         if self.pinned:
             np.random.seed(self.pin_seed)
         buf = io.StringIO()
@@ -310,18 +344,63 @@ class CliSim(object):
             if o["fired"]:
                 expect_reject = True
                 self.stats["fired:" + fault["type"]] += 0   # counted by the seam itself
+        elif fault["type"] == "swap":
+            with open(name, "rb") as f:
+                orig = f.read()
+            with open(fault["with"], "rb") as f:
+                other = f.read()
+            # reference: the command on the new bytes throughout
+            with open(name, "wb") as f:
+                f.write(other)
+            new_ref = self.run_cmd(argv)
+            with open(name, "wb") as f:
+                f.write(orig)
+            state = {"done": False}
+
+            def hook(base, nth, _name=name, _k=fault["at_open"], _other=other, _state=state, _ff=self.ff):
+                if base == _name and nth == _k and not _state["done"]:
+                    _state["done"] = True
+                    with _ff._orig_open(_name, "wb") as fh:
+                        fh.write(_other)
+            o = self.run_cmd(argv, hook=hook)
+            with open(name, "wb") as f:
+                f.write(orig)
+            self.emit({"i": step, "kind": "fault", "fault": fault, "swapped": state["done"], "o": self.odig(o)})
+            self.stats["rel_fault"] += 1
+            if state["done"]:
+                self.stats["fired:swap_between_opens"] += 1
+                if o["ok"] and not (self.same_output(o, base) or (new_ref["ok"] and self.same_output(o, new_ref))):
+                    self.violate(step, "swap_mixed_result", {"argv": argv, "fault": fault, "out": self.brief(o),
+                                                             "old": self.brief(base), "new": self.brief(new_ref)})
+                    return
+            again = self.run_cmd(argv)
+            self.stats["probe:recovery_checks"] += 1
+            if not again["ok"] or not self.same_output(again, base):
+                self.violate(step, "no_recovery_after_fault", {"argv": argv, "fault": fault, "base": self.brief(base), "again": self.brief(again)})
+            return
         else:
             with open(name, "rb") as f:
                 orig = f.read()
             party = [p for p in W.parties(self.world) if p["name"] == name][0]
             new = damaged_bytes(orig, fault)
-            os.remove(name)
-            if new is None:
-                if fault.get("mode") == "dir":
-                    os.mkdir(name)
+            if new == b"__nc_nodims__":
+                # a NetCDF file without one of the required dimensions (renamed), variables kept
+                import netCDF4
+                ds = self.ff._orig_ds(name, "a")
+                try:
+                    ds.renameDimension("time" if int(fault["frac"] * 2) == 0 else "leadtime", "dim_renamed")
+                finally:
+                    ds.close()
+                with open(name, "rb") as f:
+                    new = f.read()
             else:
-                with open(name, "wb") as f:
-                    f.write(new)
+                os.remove(name)
+                if new is None:
+                    if fault.get("mode") == "dir":
+                        os.mkdir(name)
+                else:
+                    with open(name, "wb") as f:
+                        f.write(new)
             kind = fault["type"] + (":" + fault["mode"] if fault["type"] == "corrupt" else "")
             self.stats["fired:" + kind] += 1
             if new is None:
@@ -334,12 +413,15 @@ class CliSim(object):
                     if expect_reject is None:
                         self.stats["damaged_but_wellformed"] += 1
             else:
-                if fault["type"] == "torn" or fault.get("mode") in ("empty", "garbage", "junk_text"):
+                if fault["type"] == "torn" or fault.get("mode") in ("empty", "garbage", "junk_text", "nc_nodims"):
                     expect_reject = True
                 else:
                     expect_reject = None
                     self.stats["nc_bitflip_no_expectation"] += 1
-            o = self.run_cmd(argv)
+            if party["format"] == "nc" and new is not None and fault.get("mode") != "nc_nodims":
+                o = self.run_cmd_contained(argv)
+            else:
+                o = self.run_cmd(argv)
             # repair the store
             if os.path.isdir(name):
                 os.rmdir(name)
@@ -353,6 +435,8 @@ class CliSim(object):
             self.stats["probe:fault_expect_reject"] += 1
             if o["status"].startswith("exit"):
                 self.stats["rejected_by_error_message"] += 1
+            elif o["status"].startswith("crash"):
+                self.stats["rejected_by_crash"] += 1
             elif not o["ok"]:
                 self.stats["rejected_by_traceback"] += 1
             if o["ok"]:
